@@ -638,7 +638,7 @@ def run(args):
         "generator's spelling of conditions (literal expressions, defined/used symbols, existing file, blank arguments) is the oracle for the evaluated truth values"])
     res.coverage.update(
         evaluations=evaluations, distinct_nontrivial=len([t for t in distinct if t.count(" ") >= 1]),
-        exhaustive="all skeletons of <= 2 constructs (IF ladder with <= 2 ELSEIF + optional ELSE, SWITCH with <= 2 CASE + optional ELSECASE), nested or in sequence, x all condition vectors; all statement streams of length <= %d over a %d-letter alphabet" % (3 if thorough else 2, len(ALPHABET)),
+        exhaustive=False, exhaustive_part="all skeletons of <= 2 constructs (IF ladder with <= 2 ELSEIF + optional ELSE, SWITCH with <= 2 CASE + optional ELSECASE), nested or in sequence, x all condition vectors; all statement streams of length <= %d over a %d-letter alphabet" % (3 if thorough else 2, len(ALPHABET)),
         rule="a case = one skeleton or one statement stream with its condition values; distinct by driver token list; non-trivial = at least two statements",
         samples=samples, distribution=dist, calibrated_cfg=dict(ifbStride=stride, elsecaseNullCrash=crash, deadSwitchWarns=deadwarn))
     res.assumptions = [
